@@ -59,6 +59,9 @@ for _m in (C, ET_, M):
     _m.Duration = SDuration
 
 KIND = os.environ.get("VERIF_KIND", "date")
+D = int(os.environ.get("VERIF_DEPTH", "0"))  # thorough tier: deeper bounds (per process)
+NT = 1 + D   # length of each half of the encoded temporal string
+NS = 4 + D   # length of a str value
 VALUES = {
     "date": (date(2024, 1, 31), "Date"),
     "datetime": (datetime(2024, 1, 31, 10, 5, 6), "DateTime"),
@@ -80,7 +83,7 @@ def _fresh(el):
 
 def cell_temporal(a: str, b: str) -> bool:
     """
-    pre: len(a) <= 1 and len(b) <= 1 and (KIND != "date" or ("T" not in a and "T" not in b))
+    pre: len(a) <= NT and len(b) <= NT and (KIND != "date" or ("T" not in a and "T" not in b))
     post: _
     """
     enc = _mk_enc(KIND, a, b)
@@ -106,7 +109,7 @@ def cell_temporal(a: str, b: str) -> bool:
 
 def meta_temporal(a: str, b: str) -> bool:
     """
-    pre: len(a) <= 1 and len(b) <= 1 and (KIND != "date" or ("T" not in a and "T" not in b))
+    pre: len(a) <= NT and len(b) <= NT and (KIND != "date" or ("T" not in a and "T" not in b))
     post: _
     """
     enc = _mk_enc(KIND, a, b)
@@ -126,7 +129,7 @@ def meta_temporal(a: str, b: str) -> bool:
 
 def cell_string(s: str) -> bool:
     """
-    pre: len(s) <= 3 and all(32 <= ord(c) < 55296 or c == chr(10) for c in s)
+    pre: len(s) <= NS and all(32 <= ord(c) < 55296 or c == chr(10) for c in s)
     post: _
     """
     # str values (any XML-legal printable characters, line feeds included) come back equal, directly,
@@ -161,7 +164,7 @@ def cell_simple(b: bool) -> bool:
 
 def meta_overwrite(first: int, a: str, b: str) -> bool:
     """
-    pre: 0 <= first <= 3 and len(a) <= 1 and len(b) <= 1 and (KIND != "date" or ("T" not in a and "T" not in b))
+    pre: 0 <= first <= 3 and len(a) <= NT and len(b) <= NT and (KIND != "date" or ("T" not in a and "T" not in b))
     post: _
     """
     # overwriting an existing user-defined entry with a value of another type: the entry then
@@ -179,3 +182,83 @@ def meta_overwrite(first: int, a: str, b: str) -> bool:
     els = body.get_elements("meta:user-defined")
     got = Meta._get_meta_value_full(els[0])
     return done(len(els) == 1 and got[0] == (codec, enc) and got[1] == ("time" if KIND == "timedelta" else "date"))
+
+
+# ---- the other carriers of a typed value: variables, user fields, user-defined fields ----------
+import odfdo.variable as V_  # noqa: E402
+
+CARRIERS = {"varset": V_.VarSet, "varget": V_.VarGet, "userfielddecl": V_.UserFieldDecl, "userfieldget": V_.UserFieldGet,
+            "userdefined": V_.UserDefined}
+LOOKUP = {"varset": "get_variable_set_value", "userfielddecl": "get_user_field_value", "userdefined": "get_user_defined_value"}
+CARRIER = os.environ.get("VERIF_CARRIER", "varset")
+
+
+def _in_body(e):
+    body = Element.from_tag("office:text")
+    body.append(e)
+    return body
+
+
+def carrier_temporal(a: str, b: str) -> bool:
+    """
+    pre: len(a) <= NT and len(b) <= NT and (KIND != "date" or ("T" not in a and "T" not in b))
+    post: _
+    """
+    # a date / datetime / timedelta stored in a variable, user field or user-defined field comes back
+    # through the decoder of its own type with its own string: from the element, from a fresh wrapper
+    # of a copy, through the body-level lookup by name, and after set_value() over a value of another type
+    cls = CARRIERS[CARRIER]
+    v, codec = VALUES[KIND]
+    enc = _mk_enc(KIND, a, b)
+    ENC["s"] = enc
+    want = (codec, enc)
+    e = cls("nm", v)
+    ok = e.get_value() == want and _fresh(e).get_value() == want and e.name == "nm"
+    ok = ok and e.get_value(get_type=True) == (want, "time" if KIND == "timedelta" else "date")
+    if CARRIER in LOOKUP:
+        ok = ok and getattr(_in_body(e), LOOKUP[CARRIER])("nm") == want
+    if hasattr(cls, "set_value") and "set_value" in cls.__dict__:
+        e2 = cls("nm", "txt")
+        e2.set_value(v)
+        ok = ok and e2.get_value() == want and e2.name == "nm"
+        e.set_value("txt")
+        ok = ok and e.get_value(get_type=True) == ("txt", "string") and e.name == "nm"
+    return done(ok)
+
+
+def carrier_string(s: str) -> bool:
+    """
+    pre: len(s) <= NS and all(32 <= ord(c) < 55296 for c in s)
+    post: _
+    """
+    # str values (the words true and false included) come back as the same string
+    cls = CARRIERS[CARRIER]
+    e = cls("nm", s)
+    ok = e.get_value() == s and e.get_value(get_type=True) == (s, "string") and _fresh(e).get_value() == s and e.name == "nm"
+    if CARRIER in LOOKUP:
+        ok = ok and getattr(_in_body(e), LOOKUP[CARRIER])("nm") == s
+    if "set_value" in cls.__dict__:
+        e2 = cls("nm", True)
+        e2.set_value(s)
+        ok = ok and e2.get_value() == s and e2.name == "nm"
+    return done(ok)
+
+
+def carrier_simple(b: bool) -> bool:
+    """
+    post: _
+    """
+    cls = CARRIERS[CARRIER]
+    e = cls("nm", b)
+    ok = e.get_value() is b and _fresh(e).get_value(get_type=True) == (b, "boolean")
+    for n in (0, -3, 12, 10 ** 20):
+        en = cls("nm", n)
+        g = en.get_value()
+        ok = ok and g == n and isinstance(g, int) and not isinstance(g, bool)
+    ok = ok and cls("nm", Decimal("1.50")).get_value() == Decimal("1.50") and cls("nm", None).get_value() is None
+    if "set_value" in cls.__dict__:
+        e.set_value(5)
+        ok = ok and e.get_value() == 5 and e.name == "nm"
+        e.set_value(None)
+        ok = ok and e.get_value() is None and e.name == "nm"
+    return done(ok)
